@@ -71,7 +71,7 @@ func backing(sc *Scn, r *Result, i int, h Hop) *Delivered {
 	if !ok {
 		return nil
 	}
-	ds := r.Script.Sent[o.SinkID]
+	ds := r.Deliveries(o.SinkID)
 	// a reply is processed when it arrives, except that the serial engine does not read while it waits out the
 	// send delay between two probes: processing can lag arrival by up to one send delay there
 	lag := int64(rttTolNs)
@@ -158,7 +158,7 @@ func Completeness(sc *Scn, r *Result, i int) []Issue {
 		lastTTL = h.TTL
 	}
 	const poll = int64(100e6)
-	for _, d := range r.Script.Sent[o.SinkID] {
+	for _, d := range r.Deliveries(o.SinkID) {
 		if !d.Genuine || d.TTL < sc.First || d.TTL > sc.Last {
 			continue
 		}
@@ -177,7 +177,7 @@ func Completeness(sc *Scn, r *Result, i int) []Issue {
 		if h.Addr != d.From {
 			// another genuine reply for the same TTL may have been first
 			other := false
-			for _, d2 := range r.Script.Sent[o.SinkID] {
+			for _, d2 := range r.Deliveries(o.SinkID) {
 				if d2.TTL == d.TTL && d2.From == h.Addr && d2.Genuine {
 					other = true
 				}
@@ -249,7 +249,7 @@ func DestMark(sc *Scn, r *Result, i int) []Issue {
 		if want != h.Dest {
 			// several genuine replies for the TTL can back the hop equally (same address and RTT class); accept if any agrees
 			agree := false
-			for _, d2 := range r.Script.Sent[o.SinkID] {
+			for _, d2 := range r.Deliveries(o.SinkID) {
 				if d2.TTL == d.TTL && d2.From == d.From && ProvesArrival(vi.Kind, d2.Form, d2.From == sc.Target()) == h.Dest {
 					agree = true
 				}
@@ -296,7 +296,7 @@ func RTT(sc *Scn, r *Result, i int) []Issue {
 		}
 		// candidates: genuine deliveries for this TTL from this address that arrived during the run; the first one counts
 		var first *Delivered
-		ds := r.Script.Sent[o.SinkID]
+		ds := r.Deliveries(o.SinkID)
 		for k := range ds {
 			d := &ds[k]
 			if d.TTL == h.TTL && d.From == h.Addr && d.AtNs >= st[h.TTL] && d.AtNs <= o.EndNs {
@@ -356,7 +356,7 @@ func Emission(sc *Scn, r *Result, i int) []Issue {
 	var sport, dport uint16
 	// when was the destination reply accepted? (first genuine destination delivery time + eps)
 	destAt := int64(-1)
-	for _, d := range r.Script.Sent[o.SinkID] {
+	for _, d := range r.Deliveries(o.SinkID) {
 		if ProvesArrival(vi.Kind, d.Form, d.From == sc.Target()) && d.TTL >= sc.First && d.TTL <= sc.Last {
 			if destAt < 0 || d.AtNs < destAt {
 				destAt = d.AtNs
@@ -439,6 +439,32 @@ func Emission(sc *Scn, r *Result, i int) []Issue {
 				out = append(out, Issue{"reported-ports", fmt.Sprintf("result says %d>%d, wire had %d>%d", o.Run.Source.Port, o.Run.Destination.Port, sport, dport)})
 			}
 		}
+	}
+	return out
+}
+
+// Deliveries returns the genuine deliveries of a run. A packet whose perturbed identifier equals the identifier of
+// another probe of the same run (an alias) is a genuine reply to that probe iff the probe had been sent when the packet arrived.
+func (r *Result) Deliveries(sink int) []Delivered {
+	all := r.Script.Sent[sink]
+	hasCond := false
+	for _, d := range all {
+		if d.Conditional {
+			hasCond = true
+		}
+	}
+	if !hasCond {
+		return all
+	}
+	st := sendTimes(r.Net, sink)
+	var out []Delivered
+	for _, d := range all {
+		if d.Conditional {
+			if t, ok := st[d.TTL]; !ok || t > d.AtNs {
+				continue
+			}
+		}
+		out = append(out, d)
 	}
 	return out
 }
